@@ -87,6 +87,21 @@ pub fn render(evs: &[DEv]) -> Rendered {
     Rendered { bytes, spans }
 }
 
+/// Render in another (ASCII-compatible) encoding: every event's text is transcoded.
+pub fn render_enc(evs: &[DEv], enc: &'static encoding_rs::Encoding) -> Rendered {
+    let mut bytes = vec![];
+    let mut spans = vec![];
+    for e in evs {
+        let s = bytes.len();
+        let mut tmp = vec![];
+        e.render_into(&mut tmp);
+        let (b, _, _) = enc.encode(std::str::from_utf8(&tmp).unwrap());
+        bytes.extend_from_slice(&b);
+        spans.push((s, bytes.len()));
+    }
+    Rendered { bytes, spans }
+}
+
 pub const VOID: &[&str] = &[
     "area", "base", "basefont", "bgsound", "br", "col", "embed", "hr", "img", "input", "keygen", "link", "meta",
     "param", "source", "track", "wbr",
